@@ -5,9 +5,11 @@
 //!   sync::oneshot, sync::Notify (one stored permit), sync::Mutex,
 //!   time::{Instant, Duration} (Instant = Duration since an arbitrary origin; `Instant::now()` reads a
 //!   harness-controlled clock), io::{ReadBuf, AsyncRead, AsyncWrite}.
-//! Everything that needs an executor (`Runtime`, `LocalSet`, `spawn*`, `sleep`, `timeout`) only has
-//! the signatures turmoil names; the bodies are `unimplemented!()` - a harness that reached one would
-//! fail, never pass silently.
+//! Executor model (runtime.rs, task.rs, time.rs): a paused current-thread runtime with a virtual clock
+//! per runtime that auto-advances to the earliest pending timer, `LocalSet` tasks polled in spawn
+//! order, `JoinHandle`s, `sleep` / `timeout`. Wake-ups between tasks are not modelled (see
+//! runtime.rs). `Handle`, `Runtime::spawn`, `spawn_blocking`, `select!` stay `unimplemented!()` - a
+//! harness that reached one would fail, never pass silently.
 #![allow(dead_code, unused_variables, clippy::all)]
 
 pub mod sync;
@@ -32,3 +34,6 @@ macro_rules! select {
 macro_rules! pin {
     ($($x:ident),*) => { $( let mut $x = $x; #[allow(unused_mut)] let mut $x = unsafe { ::std::pin::Pin::new_unchecked(&mut $x) }; )* };
 }
+
+#[cfg(kani)]
+mod proofs;
